@@ -8,6 +8,7 @@ import (
 	"go/types"
 	"os"
 	"sort"
+	"strconv"
 	"strings"
 	"sync"
 
@@ -157,6 +158,12 @@ func registerIntrinsics(pkg string) {
 		reg("vSetMapOrder", func(fr *frame, a []value) value {
 			fr.i.px.mapOrder = a[0].(int)
 			return nil
+		})
+		reg("vJSONInt", func(fr *frame, a []value) value {
+			if s, ok := a[0].(symInt); ok {
+				return fr.i.px.jsonSentinel(s.t)
+			}
+			return strconv.FormatInt(a[0].(int64), 10)
 		})
 		reg("vSymbolic", func(fr *frame, a []value) value { return true })
 		reg("vDrawCount", func(fr *frame, a []value) value {
